@@ -2,6 +2,7 @@ package props
 
 import (
 	"go/token"
+	"strings"
 
 	"golang.org/x/tools/go/ssa"
 
@@ -306,6 +307,92 @@ func c20() []*Ob {
 					} else {
 						c.Violation("dom:parsePipes:single-filter", fn.Pos(), "parsePipes no longer rejects a second fields pipe")
 					}
+				}
+			}},
+		{Prop: "C20", ID: "C20.6", Engine: "OWN(who-may-compare)", Floor: 1,
+			Desc: "a quoted word is a field name, never a keyword: outside the methods of the SeqQL lexer (IsKeyword, IsKeywords, IsKeywordSet, which refuse quoted tokens) the token text is compared with nothing but the empty string — `| fields \"except\", level` must keep the field called except",
+			Check: func(c *Ctx) {
+				fromToken := func(v ssa.Value) bool {
+					return DerivesFromNoCall(v, func(x ssa.Value) bool {
+						u, ok := x.(*ssa.UnOp)
+						return ok && u.Op == token.MUL && IsFieldAddr(u.X, "parser.lexer", "Token")
+					})
+				}
+				// after one of the lexer's keyword tests has answered true the token is known to be unquoted
+				// (and the lexer has not moved on to the next token since)
+				unquotedAt := func(at ssa.Instruction) bool {
+					for _, f := range FactsAt(at.Block()) {
+						cl, ok := f.Cond.(*ssa.Call)
+						if !ok || !f.Val || !strings.HasPrefix(CallName(cl), "(*parser.lexer).IsKeyword") {
+							continue
+						}
+						moved := false
+						for _, nx := range CallsIn(at.Parent(), Callee("(*parser.lexer).Next")) {
+							ni := nx.(ssa.Instruction)
+							if CanFollow(cl, ni) && CanFollow(ni, at) {
+								moved = true
+							}
+						}
+						if !moved {
+							return true
+						}
+					}
+					return false
+				}
+				n, bad := 0, 0
+				for _, fn := range c.P.FuncsInPkg("parser") {
+					top := fn
+					for top.Parent() != nil {
+						top = top.Parent()
+					}
+					if top.Signature.Recv() != nil && NamedTypeString(top.Signature.Recv().Type()) == "parser.lexer" {
+						continue
+					}
+					for _, b := range fn.Blocks {
+						for _, in := range b.Instrs {
+							switch x := in.(type) {
+							case *ssa.BinOp:
+								if x.Op != token.EQL && x.Op != token.NEQ {
+									continue
+								}
+								var other ssa.Value
+								if fromToken(x.X) {
+									other = x.Y
+								} else if fromToken(x.Y) {
+									other = x.X
+								}
+								if other == nil {
+									continue
+								}
+								n++
+								if s, ok := ConstString(other); ok && s == "" {
+									c.Site(x.Pos(), "%s tests the token for emptiness", FuncName(fn))
+									continue
+								}
+								if unquotedAt(x) {
+									c.Site(x.Pos(), "%s distinguishes keywords after the lexer's keyword test", FuncName(fn))
+									continue
+								}
+								bad++
+								c.Violation("own:lexer.Token:compare:"+FuncName(fn), x.Pos(), "%s compares the lexer's token text itself instead of asking lexer.IsKeyword: a quoted token equal to the keyword is then taken for the keyword", FuncName(fn))
+							case ssa.CallInstruction:
+								name := CallName(x)
+								if name != "strings.EqualFold" && name != "strings.ToLower" && name != "strings.HasPrefix" {
+									continue
+								}
+								for _, a := range x.Common().Args {
+									if fromToken(a) && !unquotedAt(in) {
+										n++
+										bad++
+										c.Violation("own:lexer.Token:compare:"+FuncName(fn), x.Pos(), "%s passes the lexer's token text to %s instead of asking lexer.IsKeyword: a quoted token equal to the keyword is then taken for the keyword", FuncName(fn), name)
+									}
+								}
+							}
+						}
+					}
+				}
+				if bad == 0 {
+					c.Site(token.NoPos, "keywords are recognised only through the lexer's own tests (%d emptiness tests elsewhere)", n)
 				}
 			}},
 		{Prop: "C20", ID: "C20.5", Engine: "ORDER+PROV", Floor: 1,
